@@ -166,7 +166,11 @@ def tok_resched(ctx):
     nsites = 0
     for fname, key, snaps in events_of(P, 'writesite'):
         if any(role == 'owner' and s2 == 'Idle' and s != s2 for (s, s2, role, own, len0) in snaps):
-            nsites += 1
+            # a release written in a helper shared by the runners counts once per runner that calls it
+            mult = 1
+            if fname in getattr(P, 'owner_helpers', ()):
+                mult = max(1, sum(1 for (k_, f2, callee), v in P.events.items() if k_ == 'call' and callee == fname))
+            nsites += mult
     if nsites < 6:
         out.append(undecided('TOK-resched', 'floor', 'found %d owner Idle-release sites, expected at least 6' % nsites))
     # an owner never hands the queue straight to Pending: it releases to Idle and reschedule_queue (which also tells the sync callers blocked
@@ -674,7 +678,7 @@ def park_wake(ctx):
     return out
 
 
-def relation_by_root(ctx):
+def relation_by_root(ctx, keep=()):
     """{named function: {(from, to, role)}} - non-identity transitions, closures attributed to the function they are rooted in."""
     rel = defaultdict(set)
     for (f, s, s2, role) in transitions(ctx):
@@ -683,6 +687,21 @@ def relation_by_root(ctx):
         fo = ctx.F.fn(f)
         root = (fo.root or f) if fo is not None else f
         rel[root].add((s, s2, role))
+    # a shared piece of the owners' exit sequence (a function that writes the state and is only ever called by a runner that holds the
+    # queue): its transitions are its callers' transitions
+    P = ctx.proto
+    for h in sorted(getattr(P, 'owner_helpers', ())):
+        if h not in rel or h in keep:
+            continue
+        callers = set()
+        for (k_, fname, callee), v in P.events.items():
+            if k_ == 'call' and callee == h:
+                fo = ctx.F.fn(fname)
+                callers.add((fo.root or fname) if fo is not None else fname)
+        if callers:
+            for c in callers:
+                rel[c] |= rel[h]
+            del rel[h]
     return rel
 
 
@@ -697,7 +716,7 @@ def tr_base(ctx):
     if not os.path.exists(path):
         return out + [undecided('TR-base', 'baseline', 'dsa/tr_baseline.json is missing')]
     base = json.load(open(path))['relation']
-    cur = relation_by_root(ctx)
+    cur = relation_by_root(ctx, keep=set(base))    # a reviewed function keeps its own entry; a new helper of the runners is read as part of them
     for root in sorted(set(base) | set(cur)):
         b = set(tuple(x) for x in base.get(root, []))
         c = set(cur.get(root, set()))
